@@ -166,5 +166,6 @@ LEVEL_TEXT = ("Coq theorems, no axioms. TOP LEVEL (whole inputs, every configura
 LEVEL_NOTE = ("Trusted: Coq kernel; the hand-written models Mp4/{Header,Box,San}.v (tied by the batch); Mp4/Spec.v + Mp4/ShiftSpec.v as the meaning of "
               "`chunk-offset tables`, `shifted by delta` and `the metadata read as boxes`; extraction and the OCaml driver; the Rust harness and its "
               "readers. Top-level and payload-level statements are both proved; see ASSUMPTIONS for the stated ranges.")
-TECHNIQUE = "Coq proof about a hand-written model + extracted-model/Rust differential check + extracted specification as oracle"
+TECHNIQUE = ("Coq proof about a hand-written model whose kernel (checked_add_signed) and rewrite sites (table type, entry width, hand-over to the kernel) are "
+             "regenerated from the source + extracted-model/Rust differential check + extracted specification as oracle")
 DESIGN_REF = "DESIGN.md section 7 (C01)"
